@@ -203,6 +203,18 @@ Section Open.
     - destruct (find_shdrs eh f); [discriminate| |]; cbn [rbind];
       destruct (eval f (parse_section_headers eh)); try discriminate; reflexivity.
   Qed.
+  (* the stream parser locates the header tables by the same declarative rule (C05): opening succeeds
+     exactly on an open_spec handle, and then holds its header and eager tables *)
+  Corollary open_stream_spec fam es :
+    eval f (open_prog fam) = Ok es <-> exists eb, open_spec fam f eb /\ es = es_of eb.
+  Proof.
+    pose proof (open_equiv fam) as H. split.
+    - intros E. destruct (minimal_parse fam f) as [eb| |] eqn:Em.
+      + exists eb. split; [apply minimal_parse_iff; assumption|]. rewrite H in E. injection E as <-. reflexivity.
+      + rewrite E in H. discriminate.
+      + rewrite E in H. discriminate.
+    - intros [eb [Hs ->]]. apply minimal_parse_iff in Hs; [|assumption]. rewrite Hs in H. exact H.
+  Qed.
 End Open.
 
 (* ---------- the eager header vector vs the lazy table ---------- *)
@@ -228,7 +240,7 @@ Section VecTable.
                     | None => exists e, table_get parse size d i = Err e
                     end.
   Proof.
-    destruct (iter_all_spec parse size Hs Hr d Hd) as [l [E [L H]]]. unfold collect, nth_n. rewrite E.
+    destruct (iter_all_spec parse size Hs Hr d Hd) as [l [E [L H]]]. unfold collect. rewrite nth_n_eq, E.
     destruct (nth_error l (N.to_nat i)) as [x|] eqn:En.
     - specialize (H _ _ En). now rewrite N2Nat.id in H.
     - apply nth_error_None in En. pose proof (table_get_np i) as NP.
@@ -428,7 +440,7 @@ Section Queries.
           destruct (fits f (sh_offset st) (sh_size st)); cbn [rbind rmap]; [reflexivity|exact Logic.I].
         - destruct V as [e0 ->]. cbn [rbind rmap]. exact Logic.I. }
       destruct (e_shstrndx (eb_ehdr eb) =? SHN_XINDEX).
-      - pose proof (shdr_vec_get 0) as V0. pose proof l_not_nil as Hn. unfold nth_n in V0. cbn [N.to_nat nth_error] in V0.
+      - pose proof (shdr_vec_get 0) as V0. pose proof l_not_nil as Hn. rewrite nth_n_eq in V0. cbn [N.to_nat nth_error] in V0.
         destruct l as [|h0 t] eqn:El; [discriminate|]. rewrite V0. cbn [eval rbind]. apply G.
       - cbn [eval rbind]. apply G.
     Qed.
